@@ -189,7 +189,7 @@ class Multiplication:
       links = self.segment(sn).dovetails_of_end(end_type).copy()
       for l in links:
         l_sig = repr(l.other_end(gfapy.SegmentEnd(sn, end_type)))
-        if l_sig not in to_keep:
+        if l_sig not in to_keep and l.is_connected():
           l.disconnect()
 
   def _segment_and_segment_name(self, segment_or_segment_name):
